@@ -86,6 +86,12 @@ def jobs(tier, seed):
                    "checks": ["steps", "rerun"]},
                   reach=["C02.rerun.call-log==RunSpec(OUT2)", "C02.rerun.step-statuses==RunSpec(OUT2)"],
                   min_paths=50, cost=300, validate=150))
+    # reset + second run of outline rows whose background step carries the row's value
+    js.append(Job("rerun.reset.row-param-bg", "vlib.stage1:h_stage1",
+                  {"shapes": [F([O(1, [(2, [])])], bg=1, bgp=True)], "opts": {"out_dom": {"*": [0, 1]}, "rerun_reset": True, "undef": False},
+                   "checks": ["steps", "rerun"]},
+                  reach=["C02.rerun.call-log==RunSpec(OUT2)", "C02.rerun.step-statuses==RunSpec(OUT2)"],
+                  min_paths=50, cost=300, validate=100))
     if tier == "thorough":
         js.append(Job("rerun.row", "vlib.stage1:h_stage1",
                       {"shapes": [F([O(1, [(2, [])]), S(1)], bg=1)], "opts": {"out_dom": {"*": [0, 2]}, "rerun_reset": True, "undef": False},
